@@ -16,7 +16,7 @@ INVS = ['TypeOK', 'FaceIffRunning', 'NoPendingWhenDown', 'ReturnedMeansQuiet', '
         'AfterStartAfterRoutes', 'ClosedIffOpenFailed', 'HandlersPresent', 'ResultOk']
 WITNESSES = ['W_ReconnectAfterAbandon', 'W_AfterOnDownFace', 'W_CancelledDraining', 'W_ExpressRefused',
              'W_CancelledAtShutdown']
-ACTIONS = ['StartMain', 'OpenFail', 'OpenOk', 'Reply', 'AfterFinish', 'AfterRaise', 'Down', 'CancelDraining',
+ACTIONS = ['StartMain', 'OpenFail', 'OpenOk', 'Reply', 'AfterFinish', 'AfterRaise', 'Down', 'DownError', 'CancelDraining',
            'Express', 'Satisfy']
 VIEWS = {'C17': ('cmds', 'attached', 'problems'),
          'C03': ('pend', 'out'),
